@@ -56,8 +56,10 @@ Alphabet(f) ==
                                              <<"set_node_weight_type", 2>>, <<"randomly_rewire", 3>>,
                                              <<"randomly_rewire_geomodel_I", 3>>, <<"randomly_rewire_geomodel_II", 3>>,
                                              <<"set_random_links_by_distance", 3>>}
+  \* (tokens 3 / 4: the same resistances in gigaohm - every admittance below 10^-8)
   ELSE IF f = "resnetwork" THEN {<<"update_resistances", 1>>, <<"update_resistances", 2>>,
-                                 <<"update_resistances~same", 1>>, <<"update_resistances~same", 2>>}
+                                 <<"update_resistances~same", 1>>, <<"update_resistances~same", 2>>,
+                                 <<"update_resistances", 3>>, <<"update_resistances", 4>>}
   ELSE IF f \in {"rp", "rn"} THEN RpMut \cup {<<"set_fixed_threshold_std", 1>>, <<"set_fixed_threshold_std", 2>>,
                                               <<"set_fixed_local_recurrence_rate", 1>>,
                                               <<"set_fixed_local_recurrence_rate", 2>>,
